@@ -499,28 +499,39 @@ def clause_d(facts, rep):
         if f.cls_qn != SCANNER or f.short != 'GetOnDemand':
             continue
 
+        # by role: the length handed to the byte comparison must have been found equal to the size of the view whose
+        # data() is compared - whatever the locals are called
+        sites = [(bid, i, e) for bid, i, s_, e in f.walk() if e.get('k') == 'call' and e.get('cname') in ('memcmp', '__builtin_memcmp', 'InlinedMemcmpEq', 'bcmp') and len(e.get('args') or []) == 3]
+        len_ids = set()
+        for _, _, e in sites:
+            for x in walk(e['args'][2]):
+                if x.get('k') == 'ref' and x.get('dk') in ('local', 'param'):
+                    len_ids.add(x['id'])
+
         def gen_edge(b, cond, sense):
             c = strip_expect(cond)
-            if c is not None and c.get('k') == 'bin' and c['op'] == '==' and sense:
-                names = [x.get('name') for x in walk(c) if x.get('k') == 'ref']
-                if 'sn' in names and any(x.get('k') == 'call' and x.get('cname') == 'size' for x in walk(c)):
-                    return ['sameLen']
+            if c is not None and c.get('k') == 'bin' and ((c['op'] == '==' and sense) or (c['op'] == '!=' and not sense)):
+                ids = [x.get('id') for x in walk(c) if x.get('k') == 'ref' and x.get('id') in len_ids]
+                if ids and any(x.get('k') == 'call' and x.get('cname') in ('size', 'length', 'Size') for x in walk(c)):
+                    return [('sameLen', v) for v in ids]
             return []
 
         def kill_stmt(s):
+            out = []
             for e in walk(s):
-                if e.get('k') == 'bin' and e['op'] == '=' and strip(e['l']).get('k') == 'ref' and strip(e['l']).get('name') in ('sn', 'key'):
-                    return ['sameLen']
-            return []
+                if e.get('k') == 'bin' and e['op'] in ('=', '+=', '-=') and strip(e['l']) is not None and strip(e['l']).get('k') == 'ref':
+                    out.append(('sameLen', strip(e['l'])['id']))
+            return out
         M = Must(f, gen_edge=gen_edge, kill_stmt=kill_stmt)
-        for bid, i, s, e in f.walk():
-            if e.get('k') == 'call' and e.get('cname') == 'memcmp':
-                st = M.at(bid, i)
-                if st is None:
-                    continue
-                n += 1
-                rep.check('sameLen' in st, 'E2.key-length', f.qn, show(e)[:70], locline(e['loc']),
-                          'the byte comparison must be dominated by equality of the decoded key length and the wanted key length', facts.config)
+        for bid, i, e in sites:
+            st = M.at(bid, i)
+            if st is None:
+                continue
+            n += 1
+            ids3 = [x['id'] for x in walk(e['args'][2]) if x.get('k') == 'ref' and x.get('id') in len_ids]
+            direct = any(x.get('k') == 'call' and x.get('cname') in ('size', 'length', 'Size') for x in walk(e['args'][2]))
+            rep.check(any(('sameLen', v) in st for v in ids3) or (not ids3 and any(isinstance(t_, tuple) and t_[0] == 'sameLen' for t_ in st)), 'E2.key-length', f.qn, show(e)[:70], locline(e['loc']),
+                      'the byte comparison must be dominated by equality of the decoded key length and the wanted key length', facts.config)
     rep.require(n >= 1, 'C11.d: key comparison not found')
 
 
